@@ -66,6 +66,13 @@ def id_vector(rng, maxlen=10):
 
 
 def source_stacks(rng, maxdepth=3, empty_prob=0.25):
+    st = _source_stacks(rng, maxdepth, empty_prob)
+    if rng.random() < 0.4:        # some of the names waiting on the NAME stack are BOUND (a record holds the name, not its value)
+        st["bind"] = [(n, rng.choice([Z(41), L(Z(1), Z(2)), B(True), F(fbits(2.5))])) for n in rng.sample(NAMES, rng.randrange(1, 3))]
+    return st
+
+
+def _source_stacks(rng, maxdepth=3, empty_prob=0.25):
     d = lambda: 0 if rng.random() < empty_prob else rng.randrange(1, maxdepth + 1)
     return dict(
         bool=[rng.random() < 0.5 for _ in range(d())],
@@ -254,6 +261,8 @@ def streams(seed, tier):
         n = len(code[min(max(pos, 0), depth - 1)]) - 1
         st = source_stacks(rng)
         st.update(code=code, int=[pos] + st["int"], exec=[I("LIST.GET")] + [rng.choice([N("after"), Z(1)]) for _ in range(rng.randrange(0, 2))])
+        if rng.random() < 0.15:   # what follows LIST.GET on EXEC happens to be a copy of the addressed record (or of another one)
+            st["exec"] = [I("LIST.GET"), rng.choice([code[min(max(pos, 0), depth - 1)], code[0]])] + st["exec"][1:]
         steps = rng.choice([2 + n, 2 + n, 2 + n, 1, 2, 1 + n, 3 + n])
         cases.append(case_run(k % 2, state(**st), 0, max(steps, 0)))
     out.append(Stream("get-then-execute", "run", "run.check", cases,
